@@ -45,6 +45,24 @@ def dictGet : List (List Char × β) → List Char → Except PyErr β
   | [], _ => .error .KeyError
   | (k, v) :: rest, key => if k == key then .ok v else dictGet rest key
 
+/-- `k in d` -/
+def pyDictHas : List (List Char × β) → List Char → Bool
+  | [], _ => false
+  | (k, _) :: rest, key => k == key || pyDictHas rest key
+
+/-- `d[k] = v` -/
+def pyDictSet (d : List (List Char × β)) (key : List Char) (v : β) : List (List Char × β) :=
+  (key, v) :: d.filter (fun p => !(p.1 == key))
+
+/-- the whole `ExpressionParser` object: the parsing state plus the two caches (`_tokens_cache`,
+`_parse_cache`: dicts keyed by the input text).  Token lists and trees are VALUES here: the translation of
+`tokenize` is only accepted while it hands out a copy (`[:]`) of the cached list. -/
+structure ParserObj where
+  core : ParserState
+  tokens_cache : List (List Char × List Token)
+  parse_cache : List (List Char × Ex)
+  deriving Repr, Inhabited
+
 /-- EXTERNAL `tokenizer.coerce_to_number` -/
 def pyCoerceToNumber (s : List Char) : Except PyErr Rat :=
   match parseNumber s with
